@@ -18,6 +18,25 @@ type Case struct {
 	// SepAfter: the application has registered an add-time row callback on the table that rules off every row: when
 	// it is handed a row that has joined the table it adds a separator (building from within a building call)
 	SepAfter bool `json:"sep_after,omitempty"`
+	// Grow: the application has registered an add-time row callback on the table that adds one more cell to every
+	// row it is handed (a computed column): the row is as wide as it is when the callback has done, and so is the table
+	Grow bool `json:"grow,omitempty"`
+}
+
+type grower struct{ t tabular.Table }
+
+func (g grower) UpdateProperties(po tabular.PropertyOwner) error {
+	row, ok := po.(*tabular.Row)
+	if !ok || row.IsSeparator() {
+		return nil
+	}
+	for _, x := range g.t.AllRows() {
+		if x == row {
+			row.Add(tabular.NewCell("computed"))
+			break
+		}
+	}
+	return nil
 }
 
 type ruler struct{ t tabular.Table }
@@ -235,9 +254,22 @@ func CheckCase(c Case) *ev.Violation {
 			return ev.V("registering an add-time row callback on the table failed: %v", err)
 		}
 	}
+	if c.Grow {
+		if err := t.RegisterPropertyCallback(t, tabular.CB_AT_ADD, tabular.CB_ON_ROW, grower{t}); err != nil {
+			return ev.V("registering an add-time row callback on the table failed: %v", err)
+		}
+	}
 	for i, op := range c.Script.Ops {
 		before := len(m.Rows)
 		m.Step(t, op)
+		if c.Grow && len(m.Rows) == before+1 && !m.Rows[before].Sep && !m.Rows[before].NilCells {
+			mr := m.Rows[before]
+			mr.Cells = append(mr.Cells, gen.MCell{It: gen.S("computed"), Live: gen.Materialise(gen.S("computed")), Text: "computed"})
+			mr.LateAdds++
+			if len(mr.Cells) > m.MaxEver {
+				m.MaxEver = len(mr.Cells)
+			}
+		}
 		if c.SepAfter && len(m.Rows) == before+1 && !m.Rows[before].Sep {
 			// the callback ruled the new row off: a separator follows it
 			sep := &gen.MRow{Sep: true, Attached: true, Pos: before + 2}
